@@ -653,6 +653,11 @@ class Wrapc(util.WrapperMixin):
         fmt_enum = node.fmtdict
         fmtmembers = node._fmtmembers
 
+        if not ast.members:
+            # An enumeration without members is legal C++ but "enum name { };"
+            # is not C.  Enumerations are passed as int: nothing to declare.
+            return
+
         output.append("")
         append_format(output, "//  {namespace_scope}{enum_name}", fmt_enum)
         append_format(output, "enum {C_enum} {{+", fmt_enum)
